@@ -360,9 +360,20 @@ def activate_domain_and_interventions(
     if isinstance(expression, Probability):
         if not isinstance(expression, PopulationProbability):
             raise TypeError
+        children = set(expression.children) - interventions
+        if not children:
+            # all children are fixed by the interventions, so their probability is one
+            return One()
+        # conditions that are fixed by the interventions are vacuous, and transport nodes
+        # only mark the domain, which is recorded by the population
+        parents = {
+            parent
+            for parent in expression.parents
+            if parent not in interventions and not is_transport_node(parent)
+        }
         return PopulationProbability(
             population=domain,
-            distribution=Distribution.safe(set(expression.children) - interventions),
+            distribution=Distribution.safe(children).given(parents) if parents else Distribution.safe(children),
         ).intervene(interventions)
     if isinstance(expression, Sum):
         # TODO need full integration test to trso() function that covers this branch
